@@ -77,7 +77,10 @@ def gen_table(rng, kind, universe, weights, nrows, key_name, join_name, missing_
     cols = {key_name: keys, join_name: pd.Series(strings, dtype=object)}
     order = [key_name, join_name]
     if extra_cols:
-        for cn in rng.sample(['x1', 'x2', 'x3'], rng.randint(0, 3)):
+        # some extra column names are substrings of the key / join names on purpose
+        pool = [c for c in ['x1', 'x2', 'x3', 'id', 'i', 'd', 'str', 'A', 'attr']
+                if c not in (key_name, join_name)]
+        for cn in rng.sample(pool, rng.randint(0, 3)):
             kind_c = rng.choice(['i', 'f', 's'])
             if kind_c == 'i':
                 cols[cn] = [rng.randint(-5, 5) for _ in range(nrows)]
@@ -91,9 +94,12 @@ def gen_table(rng, kind, universe, weights, nrows, key_name, join_name, missing_
     if key_kind == 'str':
         df[key_name] = df[key_name].astype(object)
     df[join_name] = df[join_name].astype(object)
-    if nrows and rng.random() < 0.5:
-        idx = rng.sample(range(1000), nrows)
-        df.index = idx
+    r = rng.random()
+    if nrows and r < 0.45:
+        df.index = rng.sample(range(1000), nrows)
+    elif nrows and r < 0.6:
+        # repeated index labels (e.g. a pd.concat of batches): valid input, only keys must be unique
+        df.index = [rng.randint(0, max(1, nrows // 2)) for _ in range(nrows)]
     return df
 
 
